@@ -162,10 +162,7 @@ def run_op_impl(m, op: dict) -> Any:
         m.drop_old_proposals(float(Fraction(op["now"])))
         return None
     if kind == "status":
-        rep = m.get_status(_CIDS, op["prio"], mk_sb(op["sb"]))
-        b = rep.bounds
-        return {"target": from_power(rep.target_power), "lo": None if b is None else from_power(b.lower),
-                "hi": None if b is None else from_power(b.upper)}
+        return report_json(m.get_status(_CIDS, op["prio"], mk_sb(op["sb"])))
     if kind == "adjust":
         rep = m.get_status(_CIDS, op["prio"], mk_sb(op["sb"]))
         lo, hi = rep.adjust_to_bounds(to_power(op["power"]))
@@ -173,6 +170,29 @@ def run_op_impl(m, op: dict) -> Any:
     if kind == "get":
         return from_power(m.get_target_power(_CIDS))
     raise ValueError(kind)
+
+
+def get_report(m, prio: int, sb: dict):
+    """The real `_Report` object an actor of priority `prio` is sent (one `get_status` call)."""
+    return m.get_status(_CIDS, prio, mk_sb(sb))
+
+
+def adjust_on(rep, x: Fraction) -> list:
+    """`adjust_to_bounds(x)` on an already obtained report (no further manager call)."""
+    lo, hi = rep.adjust_to_bounds(to_power(rat(x)))
+    return [from_power(lo), from_power(hi)]
+
+
+def report_json(rep) -> dict:
+    """Canonical form of a report (same shape as the Lean driver's `status` output)."""
+    b = rep.bounds
+    return {"target": from_power(rep.target_power), "lo": None if b is None else from_power(b.lower),
+            "hi": None if b is None else from_power(b.upper)}
+
+
+def report_bounds(rep) -> tuple[Fraction, Fraction] | None:
+    b = rep.bounds
+    return None if b is None else (Fraction(b.lower.as_watts()), Fraction(b.upper.as_watts()))
 
 
 def run_script_impl(script: dict) -> tuple[Any, dict]:
